@@ -669,7 +669,7 @@ func runC36(c *core.Ctx) error {
 				return
 			}
 			if r.OK || !(r.ErrorKind == "liveness" || strings.Contains(r.ErrorText, "Temporal properties")) {
-				k.fail(fmt.Errorf("model self-test: without fairness the liveness property must fail, TLC said ok=%v kind=%s", r.OK, r.ErrorKind))
+				k.fail(fmt.Errorf("model self-test: without fairness the liveness property must fail, TLC said ok=%v kind=%s: %s", r.OK, r.ErrorKind, oneLine(r.ErrorText+" // "+r.Tail, 600)))
 				return
 			}
 			c.Set("selftest_liveness_fails_without_fairness", true)
